@@ -100,7 +100,7 @@ end
 
 def outcomeStr : Outcome → String
   | .ok => "ok" | .missing => "missing" | .badCT => "badCT" | .decodeErr => "decodeErr"
-  | .schemaErr => "schemaErr" | .rewriteErr => "rewriteErr" | .panic => "panic" | .unmodelled => "unmodelled"
+  | .schemaErr => "schemaErr" | .panic => "panic" | .unmodelled => "unmodelled"
 
 /-- which precedence level of `Content.Get` answered (for the branch statistics) -/
 def ctLevel (c : List (Str × MediaType)) (mime : Str) : String :=
@@ -173,8 +173,7 @@ def handle (j : Json) : Json :=
   -- composition-free schemas whose defaults decide; elsewhere no specification applies
   let spec := if twoPhase then acceptDB registry rb ct b exro ds else acceptB registry rb ct b exro
   let excl :=
-    (if exclFormUnparsable registry rb ct b then ["FormFieldUnparsable"] else []) ++
-    (if exclNoBodyEncoder registry rb ct b exro ds then ["NoBodyEncoder"] else [])
+    (if exclFormUnparsable registry rb ct b then ["FormFieldUnparsable"] else [])
   let applies := neutral || twoPhase
   let reached := !(b.text = []) && !rb.content.isEmpty
   let sel := contentGet rb.content ct
@@ -194,7 +193,6 @@ def handle (j : Json) : Json :=
     (if decoding then [decLabel registry ct] else []) ++
     (if out = .decodeErr then ["out.decodeErr"] else []) ++
     (if out = .schemaErr then ["out.schemaErr"] else []) ++
-    (if out = .rewriteErr then ["out.rewriteErr"] else []) ++
     (if !ds then ["opt.skipDefaults"] else []) ++
     (if decoding && out = .ok then ["out.validated"] else []) ++
     (match dv with
@@ -225,7 +223,7 @@ def handle (j : Json) : Json :=
     (if !excl.isEmpty then ["excl"] else []) ++
     (if !formEncsWF registry rb ct b then ["form.encs.notWF"] else [])
   if out = .unmodelled then
-    jobj [("error", Json.str "case outside the model (YAML/CSV/nested decoder, default below `not`, nested default under a media type without encoder): generator must not produce it")]
+    jobj [("error", Json.str "case outside the model (nested form decoder, default below `not`): generator must not produce it")]
   else if !caseWF registry rb ct b then
     jobj [("error", Json.str "duplicate keys in a properties map or in an object value: generator must not produce it")]
   else
